@@ -10,6 +10,8 @@ from __future__ import annotations
 import fcntl
 import json
 import os
+
+import numpy as np
 import re
 import subprocess
 import sys
@@ -35,6 +37,48 @@ TRUSTED_BASE = [
     "the correspondence harness (generators, canonicalisation, tolerance 1e-9 for continuous outputs)",
     "numpy/scipy/matplotlib/pysat/mpire numerics and third-party behaviour are modelled, not verified",
 ]
+
+
+def fresh_eval(exprs, preamble="import numpy as np", timeout=120):
+    """evaluate each expression in its own fresh interpreter (the call is the first thing koala does in that process) and return the resulting arrays:
+    the history-free reference for 'the same call gives the same result whatever was called before'.  Runs the interpreters in parallel."""
+    import base64, pickle
+    from concurrent.futures import ThreadPoolExecutor
+    env = dict(os.environ, PYTHONPATH=str(REPO / "src"), MPLBACKEND="Agg")
+    code = preamble + "\nimport sys, pickle, base64\nr = {expr}\nsys.stdout.write('RESULT:' + base64.b64encode(pickle.dumps(np.asarray(r))).decode())\n"
+
+    def one(expr):
+        p = subprocess.run([sys.executable, "-c", code.format(expr=expr)], capture_output=True, text=True, env=env, timeout=timeout)
+        for line in p.stdout.splitlines():
+            if line.startswith("RESULT:"):
+                return pickle.loads(base64.b64decode(line[7:]))
+        return RuntimeError(p.stderr[-300:])
+    with ThreadPoolExecutor(max_workers=8) as ex:
+        return list(ex.map(one, exprs))
+
+
+def history_check(ctx, preamble, exprs, label="call"):
+    """'the same call gives the same result whatever was called before': evaluate each expression here, at the end of a run that has made thousands of other
+    calls, and as the first call of a fresh interpreter; any difference is a dependence on history (a cache keyed on too little, shared mutable state)"""
+    ns = {}
+    exec(preamble, ns)
+    here = []
+    for e in exprs:
+        try:
+            here.append(np.asarray(eval(e, ns)))
+        except Exception as ex:
+            here.append(ex)
+    fresh = fresh_eval(exprs, preamble)
+    for e, a, b in zip(exprs, here, fresh):
+        if isinstance(b, Exception):
+            ctx.notes.append(f"history check: no fresh-interpreter reference for {e[:80]}")
+            continue
+        if isinstance(a, Exception):
+            ctx.impl_violation(f"{label} {e[:160]} raises {type(a).__name__}: {a} late in a long run but works as the first call of a fresh interpreter", dict(case="history", expr=e))
+        elif a.shape != b.shape or a.dtype != b.dtype or not np.array_equal(a, b, equal_nan=True if a.dtype.kind in "fc" else False):
+            ctx.impl_violation(f"{label} {e[:160]} gives a different result late in a long run than as the first call of a fresh interpreter: it depends on the calls "
+                               "made before it", dict(case="history", expr=e))
+        ctx.count("history_checks")
 
 
 def guarded_translate(ctx, fn, which, empty):
